@@ -127,6 +127,14 @@ func genC14(t *rapid.T) c14Case {
 	c := c14Case{ProfileText: text, Graph: g, Maps: genSourceMaps(t, g)}
 	unreadableMembers = false
 	c.Opts = m.LDOpts{Unwrap1: rapid.Bool().Draw(t, "unwrap1"), Embed: rapid.Bool().Draw(t, "embed"), NativeLit: rapid.Bool().Draw(t, "native"), GraphWrap: rapid.IntRange(0, 1).Draw(t, "wrap")}
+	if rapid.IntRange(0, 2).Draw(t, "compactForm") == 0 {
+		// compact JSON-LD: prefixes, @vocab, ids relative to @base - the source maps name elements by absolute IRI
+		c.Opts.Context = true
+		c.Opts.Base = rapid.Bool().Draw(t, "base")
+		c.Opts.Vocab = rapid.Bool().Draw(t, "vocab")
+		c.Opts.Aliases = rapid.Bool().Draw(t, "aliases")
+		c.Opts.TypeString = rapid.Bool().Draw(t, "typestr")
+	}
 	genScale(t, g, 16)
 	if rapid.IntRange(0, 11).Draw(t, "padded") == 0 {
 		c.Opts.PadBytes = rapid.SampledFrom([]int{70_000, 600_000, 1_200_000}).Draw(t, "padBytes")
